@@ -767,8 +767,8 @@ func handleBatchWriteRequestError(table string, req *dynamodb.WriteRequest, unpr
 
 // TransactWriteItems mock response for dynamodb
 func (fd *Client) TransactWriteItems(input *dynamodb.TransactWriteItemsInput) (*dynamodb.TransactWriteItemsOutput, error) {
-	if fd.failureErr() != nil {
-		return nil, ErrForcedFailure
+	if err := fd.failureErr(); err != nil {
+		return nil, err
 	}
 
 	//TODO: Implement transact write
